@@ -384,6 +384,34 @@ def check_store(out, s, n, stored_expect, ops):
             out.v('oracle17:stored-copy-%s|%s' % (kind, how), 'case %d: number %d on the wire %r, stored %r; ops=%s' % (n, num, raw[:120], (got or b'')[:120], ops[-6:]), s)
 
 
+def hist_c17ni(out, sim, rng, n, extra):
+    """C17 only: an application message sent with no_increment=true is still a new message on the wire and must be stored under the
+    number it carries (what the next message is numbered is not judged here)"""
+    s = Sess(sim, rng)
+    role = rng.choice('AI')
+    persist = rng.choice(['file', 'mem'])
+    r = s.new(role, 'SRV' if role == 'A' else 'CLI', 'CLI' if role == 'A' else 'SRV', 30, persist, purge=1)
+    s.handshake(r, 30)
+    for k in range(rng.randint(0, 4)):
+        if rng.random() < 0.5:
+            s.send('n%d_%d' % (n, k))
+        else:
+            s.hb()
+    mark = len(s.wire)
+    s._do('SENDNI ni%d' % n)
+    outs = [m for m in s.wire[mark:] if m.type == 'D']
+    out.stat('no_increment_sends')
+    out.stat('store_reads')
+    if len(outs) != 1:
+        out.v('oracle17:no-increment-send-not-on-wire', 'case %d: %s' % (n, [vis(m) for m in s.wire[mark:]]), s)
+        return
+    got = s.get(outs[0].seq)
+    if got != outs[0].raw:
+        out.v('oracle17:stored-copy-%s|no-increment-send' % ('missing' if got is None else 'differs'),
+              'case %d role=%s persist=%s: wire message carries 34=%s, stored under that number: %r' % (n, role, persist, outs[0].seq, (got or b'')[:100]), s)
+    out.distinct('op_sequence', hash(('ni', role, persist, n % 7)))
+
+
 def _split17(c):
     """hist_c16 feeds two properties: keys starting with oracle17: belong to C17"""
     mine, other = [], []
@@ -413,6 +441,7 @@ def c16(tier, seed):
 def c17(tier, seed):
     c = Check('C17', tier, seed)
     drive(c, 'hist_c16', 1500 if c.quick else 80000)
+    drive(c, 'hist_c17ni', 160 if c.quick else 4000)
     mine, other = _split17(c)
     c.violations = other
     for v in c.violations:
@@ -422,7 +451,8 @@ def c17(tier, seed):
     c.distinct_names = ['op_sequence']
     c.rule = ('C16\'s histories (every history mixes single sends, batches and administrative sends); before every restart and at the end each '
               'new message seen on the wire is read back from the persister by its MsgSeqNum: application messages must be byte-identical to '
-              'the wire, administrative numbers must have no record; file and memory persisters; evaluations = store reads')
+              'the wire, administrative numbers must have no record; file and memory persisters; plus short histories ending in an application '
+              'send with no_increment=true, which must be stored under the number it carries; evaluations = store reads')
     c.assumptions = ['the wire bytes are those read from the peer socket']
     c.finish()
 
